@@ -131,6 +131,11 @@ def bounds(tier):
                       "terminal_penalty {False, True} over 3 fixed x 36 mobile peptides (+ nucleotides with NUC)",
             "combo": "mirror image + offset (64,-32,16) + noise + every partial mask on all 3-point sets and 3 listed "
                      "sets; NaN coordinate in the one atom the mask excludes (EITHER: exception or NaN stays local)",
+            "ladder": "magnitude ladder of the rigid motion: angle 90*2^-k degrees, k=0..20, about x, y, z and (1,2,3) x "
+                      "translation {0, 2^-k*(1,-1,.5), (40,-25,10)} x structure {at the origin, shifted by (300,-200,100)} "
+                      "on 4 sets (2- and 4-point lattice set, helix6, 4*generic7): single superimpose calls, one stack "
+                      "of all 252 motions, stacks of the near-identity motions only, superimpose_without_outliers; "
+                      "rotate / rotate_centered / rotate_about_axis on the same ladder against the textbook value",
             "sizes": "6 sets x {superimpose, superimpose_without_outliers, rmsd, bool mask length, index mask} x fixed "
                      "size {1,n,n+2} x second operand size {1,n-1,n,n+1,2n,3n}: unequal sizes = exception or any value, "
                      "arguments untouched; equal sizes must work",
@@ -1111,6 +1116,7 @@ def shards(tier, seed):
         for c2 in perms:
             out.append({"kind": "homolog", "fam": "sub", "f": [c1, c2]})
     out += [dict(x) for x in AUDIT_SHARDS] + [dict(x) for x in AUDIT2_SHARDS] + [dict(x) for x in AUDIT3_SHARDS]
+    out += [dict(x) for x in LADDER_SHARDS]
     # heavy first
     weight = {"fit": 0, "outlier": 1, "shape": 2, "homolog": 3, "audit": 4}
     out.sort(key=lambda s: (weight[s["kind"]], 0 if s.get("size") in (4, 5) else 1))
@@ -1222,6 +1228,8 @@ def _run_shard(shard, ctx):
         for c in homolog_cases(shard, ctx.tier):
             if ctx.journal(json.dumps(c)):
                 run_homolog_case(ctx, c)
+    elif k == "audit" and shard["fam"] == "ladder":
+        run_ladder_shard(shard, ctx)
     elif k == "audit" and shard["fam"] in ("sizes", "ambient", "boxed", "ties", "zeroscore"):
         run_audit3_shard(shard, ctx)
     elif k == "audit" and shard["fam"] in ("identity", "bparam", "combo", "derived"):
@@ -1265,6 +1273,12 @@ def replay(case, ctx):
         run_ndim_case(ctx, case)
     elif k == "audit" and case.get("fam") == "sizes":
         run_sizes_case(ctx, case)
+    elif k == "audit" and case.get("fam") == "ladder":
+        if case.get("mode") == "transform":
+            run_ladder_transform(ctx, case)
+        else:
+            run_ladder_case(ctx, {x: case[x] for x in case if x not in ("focus", "motion", "axis", "k")},
+                            focus=case.get("focus"))
     elif k == "audit" and case.get("fam") == "ambient":
         run_ambient_case(ctx, case)
     elif k == "audit" and case.get("fam") == "boxed":
@@ -2242,3 +2256,178 @@ def run_audit3_shard(shard, ctx):
         for c in ({"kind": "homolog", "f": [["ALA", "GLY", "SER", "ALA"]], "m": [["ALA", "GLY"], ["SER", "ALA"]],
                    "geo": 1, "ma": 2, "mi": None},):
             run_homolog_case(ctx, c)
+
+
+
+# ===========================================================================
+# magnitude ladder of the rigid motion (round-5 seed): near-identity rotations / translations,
+# also for structures far from the origin - see notes/C16.md "Round-5 seed"
+# ===========================================================================
+LADDER_K = list(range(21))
+LADDER_AXES = {"x": (1, 0, 0), "y": (0, 1, 0), "z": (0, 0, 1), "skew": (1, 2, 3)}
+LADDER_OFFSETS = {"origin": (0.0, 0.0, 0.0), "far": (300.0, -200.0, 100.0)}
+LADDER_TRANS = ["zero", "ladder", "big"]
+
+
+def ladder_sets():
+    return {
+        "pair2": [[0.0, 0.0, 0.0], [1.0, 2.0, 2.0]],
+        "tetra4": [[0.0, 0.0, 0.0], [2.0, 0.0, 1.0], [0.0, 2.0, 1.0], [1.0, 1.0, 2.0]],
+        "helix6": [list(map(float, p)) for p in BIG_SETS["helix6"]],
+        "generic7x4": [[4.0 * c for c in p] for p in BIG_SETS["generic7"]],
+    }
+
+
+def ladder_items():
+    return [(ax, k, tr) for ax in LADDER_AXES for k in LADDER_K for tr in LADDER_TRANS]
+
+
+def ladder_build(setname, offset, items):
+    """fixed (n,3) and mobile (m,n,3) as float32-representable float64 arrays: the mobile coordinates are rounded
+    to float32 first, and the reference judges exactly those numbers (so the optimum is the rounding residue, not 0)."""
+    F = np.array(ladder_sets()[setname], dtype=np.float64) + np.array(LADDER_OFFSETS[offset])
+    F = F.astype(np.float32).astype(np.float64)
+    mob = np.empty((len(items),) + F.shape)
+    for i, (ax, k, tr) in enumerate(items):
+        ang = np.deg2rad(90.0) * 2.0 ** (-k)
+        R = sp.axis_angle_rotation(LADDER_AXES[ax], ang)
+        t = {"zero": np.zeros(3), "ladder": 2.0 ** (-k) * np.array([1.0, -1.0, 0.5]),
+             "big": np.array([40.0, -25.0, 10.0])}[tr]
+        mob[i] = F @ R.T + t
+    return F, mob.astype(np.float32).astype(np.float64)
+
+
+def run_ladder_case(ctx, case, focus=None):
+    import biotite.structure as struc
+
+    setname, offset, mode = case["set"], case["offset"], case["mode"]
+    items = ladder_items()
+    if mode == "stack_tiny":
+        items = [it for it in items if it[1] >= case["kmin"]]
+    F, mob = ladder_build(setname, offset, items)
+    m, n = mob.shape[0], F.shape[0]
+    cls = "ladder/%s/%s/%s" % (mode, offset, sp.rank_class(ladder_sets()[setname]))
+    ctx.ev(m, m)
+    ctx.count("accepted", m)
+    ctx.count("ev_audit_ladder_" + mode, m)
+    probe_in = np.broadcast_to(PROBE + np.array(LADDER_OFFSETS[offset]), (m, 5, 3)).astype(np.float32).astype(np.float64)
+    w = None
+    site = "superimpose"
+    try:
+        if mode in ("stack_all", "stack_tiny"):
+            fitted, tr = struc.superimpose(F.astype(np.float32), mob.astype(np.float32))
+            R, ct, tt, mat = extract(tr, m)
+            probe_out = np.asarray(tr.apply(probe_in.astype(np.float32)), dtype=np.float64)
+            fitted = np.asarray(fitted, dtype=np.float64)
+        else:
+            fitted = np.empty_like(mob)
+            R, ct, tt, mat = np.empty((m, 3, 3)), np.empty((m, 3)), np.empty((m, 3)), np.empty((m, 4, 4))
+            probe_out = np.empty((m, 5, 3))
+            if mode == "outliers":
+                w = np.zeros((m, n), dtype=bool)
+                site = "superimpose_without_outliers"
+            for i in range(m):
+                if mode == "single":
+                    f, tr = struc.superimpose(F.astype(np.float32), mob[i].astype(np.float32))
+                else:
+                    f, tr, anc = struc.superimpose_without_outliers(F.astype(np.float32), mob[i].astype(np.float32),
+                                                                    min_anchors=1)
+                    w[i, np.asarray(anc)] = True
+                fitted[i] = f
+                R[i], ct[i], tt[i], mat[i] = [x[0] for x in extract(tr, 1)]
+                probe_out[i] = tr.apply(probe_in[i].astype(np.float32))
+    except Exception as e:  # noqa: BLE001
+        ctx.violation("%s|raises_%s|%s" % (site, type(e).__name__, cls), "legal input raised: %s" % e, case,
+                      observed=repr(e)[:300])
+        return
+
+    class _Named:
+        """add the motion (axis, k, translation kind) of the failing item to the case"""
+
+        def __init__(self, c):
+            self.c = c
+
+        def violation(self, sig, what, cs, expected=None, observed=None):
+            cs = {**cs, "motion": list(items[cs["focus"]])}
+            self.c.violation(sig, what, cs, expected, observed)
+
+        def outcome(self, o):
+            self.c.outcome(o)
+
+    judge(_Named(ctx), site, cls, case, F, mob, w, fitted, R, ct, tt, mat, probe_in, probe_out, focus,
+          selfcheck=(w is None))
+    # "exact rigid copy -> RMSD zero up to float32 rounding": the copy is exact up to the float32 rounding of its
+    # coordinates, so the bound is eps32 * max|coordinate| * small factor (40), derived from the magnitudes
+    if w is None:
+        r = sp.rmsd(F, fitted)
+        bound = 40 * 6e-8 * (1.0 + np.max(np.abs(F)) + np.max(np.abs(mob), axis=(1, 2)))
+        bad = r > bound
+        if focus is not None:
+            bad = bad & (np.arange(m) == focus)
+        if bad.any():
+            i = int(np.argmax(bad))
+            ctx.violation("%s|rigid_copy_not_restored|%s" % (site, cls),
+                          "RMSD after fitting a rigid copy exceeds the float32 rounding bound", {**case, "focus": i,
+                          "motion": list(items[i])}, expected=float(bound[i]), observed=float(r[i]))
+
+
+def run_ladder_transform(ctx, case):
+    """rotate / rotate_centered / rotate_about_axis on the same angle ladder vs the textbook value."""
+    import biotite.structure as struc
+
+    setname, offset = case["set"], case["offset"]
+    F = (np.array(ladder_sets()[setname]) + np.array(LADDER_OFFSETS[offset])).astype(np.float32)
+    F64 = F.astype(np.float64)
+    c = F64.mean(axis=0)
+    for ax, axis in LADDER_AXES.items():
+        for k in LADDER_K:
+            ang = np.deg2rad(90.0) * 2.0 ** (-k)
+            Rm = sp.axis_angle_rotation(axis, ang)
+            jobs = [("rotate_about_axis", lambda: struc.rotate_about_axis(F, axis, ang), F64 @ Rm.T),
+                    ("rotate_about_axis_support", lambda: struc.rotate_about_axis(F, axis, ang, support=c),
+                     (F64 - c) @ Rm.T + c)]
+            if ax != "skew":
+                angles = [ang if a == ax else 0.0 for a in "xyz"]
+                jobs += [("rotate", lambda: struc.rotate(F, angles), F64 @ Rm.T),
+                         ("rotate_centered", lambda: struc.rotate_centered(F, angles), (F64 - c) @ Rm.T + c)]
+            for name, fn, want in jobs:
+                ctx.ev(1, 1)
+                ctx.count("ev_audit_ladder_transform")
+                try:
+                    got = np.asarray(fn(), dtype=np.float64)
+                except Exception as e:  # noqa: BLE001
+                    ctx.violation("transform|raises_%s|ladder/%s" % (type(e).__name__, name), "legal call raised: %s" % e,
+                                  {**case, "axis": ax, "k": k}, observed=repr(e)[:300])
+                    continue
+                tol = 1e-5 * (1.0 + np.max(np.abs(F64)))
+                if got.shape != want.shape or np.max(np.abs(got - want)) > tol:
+                    ctx.violation("transform|wrong_coordinates|ladder/%s/%s" % (name, offset),
+                                  "rotated coordinates differ from the textbook value", {**case, "axis": ax, "k": k},
+                                  expected=want, observed=got)
+    ctx.outcome(("ladder-transform", setname, offset))
+
+
+LADDER_SHARDS = [{"kind": "audit", "fam": "ladder", "part": p} for p in range(2)]
+
+
+def ladder_cases(part):
+    for si, setname in enumerate(ladder_sets()):
+        if si % 2 != part:
+            continue
+        for offset in LADDER_OFFSETS:
+            for mode in ("single", "stack_all", "outliers"):
+                yield {"kind": "audit", "fam": "ladder", "set": setname, "offset": offset, "mode": mode}
+            for kmin in (9, 12, 16):
+                yield {"kind": "audit", "fam": "ladder", "set": setname, "offset": offset, "mode": "stack_tiny",
+                       "kmin": kmin}
+            yield {"kind": "audit", "fam": "ladder", "set": setname, "offset": offset, "mode": "transform"}
+
+
+def run_ladder_shard(shard, ctx):
+    for c in ladder_cases(shard["part"]):
+        if not ctx.journal(json.dumps(c)):
+            continue
+        if c["mode"] == "transform":
+            run_ladder_transform(ctx, c)
+        else:
+            run_ladder_case(ctx, c)
